@@ -182,7 +182,10 @@ func (w *world) newParty(method, label, kh string) *party {
 		idStr, kid := w.a.newJWKDID()
 		return &party{id: did.MustParseDID(idStr), kid: kid}
 	}
-	idStr := newDIDName(method, label)
+	return w.newPartyWithID(newDIDName(method, label), kh)
+}
+
+func (w *world) newPartyWithID(idStr string, kh string) *party {
 	id := did.MustParseDID(idStr)
 	p := &party{id: id, kid: idStr + "#K"}
 	k := keyUse{kid: p.kid, pub: w.a.newKey(p.kid), assertion: true, authn: true}
@@ -253,6 +256,21 @@ func (w *world) who(method, role string) *party {
 	if role == "badissuer" {
 		must(w.t, w.b.trust.AddTrust(uri(orgType), p.id.URI()))
 	}
+	return p
+}
+
+// attacker returns the party that signs in place of `victim`: a resolvable DID (both nodes know its document and valid key)
+// in the given textual relation to the victim's DID.
+func (w *world) attacker(method, rel string, victim *party) *party {
+	if rel == "unrelated" || rel == "other" {
+		return w.who(method, "attacker")
+	}
+	key := "att/" + rel + "/" + victim.id.String()
+	if p, ok := w.named[key]; ok {
+		return p
+	}
+	p := w.newPartyWithID(relatedDID(victim.id.String(), rel), "stable")
+	w.named[key] = p
 	return p
 }
 
@@ -464,7 +482,7 @@ func (w *world) vcDoc(c acase, method string) (string, *party, error) {
 	if c.VM == "issuer" {
 		raw, err = w.issue(d, orgType, subj, c.Fmt, 4, c.Exp, status)
 	} else {
-		raw, err = w.forge(d, w.who(method2(method), "attacker"), subj, c.Fmt, 4, c.Exp)
+		raw, err = w.forge(d, w.attacker(method2(method), c.VM, d), subj, c.Fmt, 4, c.Exp)
 	}
 	if err != nil {
 		return "", d, err
@@ -537,8 +555,8 @@ func (w *world) vpSigDoc(c acase, method string) (string, error) {
 		return "", err
 	}
 	signer := d
-	if c.Presenter == "other" {
-		signer = w.who(method, "attacker")
+	if c.Presenter != "subject" {
+		signer = w.attacker(method, c.Presenter, d)
 	}
 	var hf *party
 	switch c.Holder {
@@ -590,6 +608,12 @@ func (w *world) vpVcDoc(c acase, method string) (string, error) {
 		raw, err = w.issue(w.who(method, "untrusted"), orgType, orgSubject(d.id, "Untrusted"), c.VCFmt, 2, 0, false)
 	case "badsig":
 		raw, err = w.issue(w.who(method, "badissuer"), orgType, orgSubject(d.id, "BadSig"), c.VCFmt, 2, 0, false)
+	default:
+		if rel, ok := strings.CutPrefix(c.VCState, "forged-"); ok {
+			raw, err = w.forge(iss, w.attacker(method, rel, iss), orgSubject(d.id, "Forged"), c.VCFmt, 2, 0)
+		} else {
+			err = fmt.Errorf("unknown state of the carried credential: %s", c.VCState)
+		}
 	}
 	if err != nil {
 		return "", err
